@@ -102,4 +102,91 @@ def r13_3(ctx):
     return out
 
 
-RULES = [r13_1, r13_2, r13_3]
+def r13_4(ctx):
+    """abstract run (W) of Point2D's own arithmetic, on points whose operators re-enter the repository's methods
+    (rules/pointworld.py): componentwise and exact, results are new objects, in-place operators return the same object,
+    inner / cross are the two products with the right sign, indexing and iteration give (x, y), == is symmetric and
+    tolerant to 1e-9 only"""
+    from fractions import Fraction as Fr
+    from rules.pointworld import World
+    from verifkit.finite import Undecided, Raised
+    out = Outcome("R13.4", "Point2D arithmetic is what every other rule assumes of a point: + - * / and unary minus are "
+                           "componentwise, exact and return new points leaving the operands alone; += -= *= /= update the "
+                           "same object; inner = x1 x2 + y1 y2, cross = x1 y2 - y1 x2 (| and ^ alike); p[0], p[1], "
+                           "tuple(p); == compares values within 1e-9, symmetrically", floor=20)
+    q = "polygon.Point2D"
+    ax, ay, bx, by, k = Fr(3, 2), Fr(-2), Fr(5), Fr(1, 3), Fr(2, 3)
+
+    def case(label, run, want, fresh=None, same=None, untouched=True):
+        W = World(ctx)
+        a, b = W.point(ax, ay), W.point(bx, by)
+        try:
+            got = run(W, a, b)
+        except (Undecided,) as ex:
+            out.undecided(f"{q}.{label.split()[0]}", f"{label}: {ex}", where=ctx.fn(f"{q}.__init__").where())
+            return
+        except (Raised, TypeError, ValueError, AttributeError, ZeroDivisionError, AssertionError) as ex:
+            out.bad(f"{q}.{label.split()[0]}", f"{label} raises {type(ex).__name__}", where=ctx.fn(f"{q}.__init__").where())
+            return
+        val = W.xy(got) if isinstance(got, W.Pt) else got
+        problems = []
+        if val != want:
+            problems.append(f"gives {val}, required {want}")
+        if fresh and (got is a or got is b):
+            problems.append("returns one of its operands instead of a new point")
+        if same is not None and got is not (a if same == "a" else b):
+            problems.append("an in-place operator does not return the object it updated")
+        if untouched and same is None and (W.xy(a) != (ax, ay) or W.xy(b) != (bx, by)):
+            problems.append(f"changes an operand: a = {W.xy(a)}, b = {W.xy(b)}")
+        if same == "a" and W.xy(b) != (bx, by):
+            problems.append(f"changes the right operand: b = {W.xy(b)}")
+        fnq = f"{q}.{label.split()[0]}"
+        where = ctx.model.funcs[fnq].where() if fnq in ctx.model.funcs else ctx.fn(f"{q}.__init__").where()
+        if problems:
+            out.bad(fnq, f"point arithmetic wrong: {label}", where=where, detail="; ".join(problems))
+        else:
+            out.ok(fnq, f"{label} = {want}", where=where)
+    case("__add__ a + b", lambda W, a, b: a + b, (ax + bx, ay + by), fresh=True)
+    case("__sub__ a - b", lambda W, a, b: a - b, (ax - bx, ay - by), fresh=True)
+    case("__sub__ b - a", lambda W, a, b: b - a, (bx - ax, by - ay), fresh=True)
+    case("__mul__ a * k", lambda W, a, b: a * k, (ax * k, ay * k), fresh=True)
+    case("__rmul__ k * a", lambda W, a, b: k * a, (ax * k, ay * k), fresh=True)
+    case("__truediv__ a / k", lambda W, a, b: a / k, (ax / k, ay / k), fresh=True)
+    case("__neg__ -a", lambda W, a, b: -a, (-ax, -ay), fresh=True)
+    case("__iadd__ a += b", lambda W, a, b: a.__iadd__(b), (ax + bx, ay + by), same="a")
+    case("__isub__ a -= b", lambda W, a, b: a.__isub__(b), (ax - bx, ay - by), same="a")
+    case("__imul__ a *= k", lambda W, a, b: a.__imul__(k), (ax * k, ay * k), same="a")
+    case("__itruediv__ a /= k", lambda W, a, b: a.__itruediv__(k), (ax / k, ay / k), same="a")
+    case("inner a.inner(b)", lambda W, a, b: W.call("inner", a, b), ax * bx + ay * by)
+    case("cross a.cross(b)", lambda W, a, b: W.call("cross", a, b), ax * by - ay * bx)
+    case("cross b.cross(a)", lambda W, a, b: W.call("cross", b, a), bx * ay - by * ax)
+    case("__or__ a | b", lambda W, a, b: a | b, ax * bx + ay * by)
+    case("__xor__ a ^ b", lambda W, a, b: a ^ b, ax * by - ay * bx)
+    case("norm2 a.norm2()", lambda W, a, b: W.call("norm2", a), ax * ax + ay * ay)
+    case("__getitem__ (a[0], a[1])", lambda W, a, b: (a[0], a[1]), (ax, ay))
+    case("__iter__ tuple(a)", lambda W, a, b: tuple(a), (ax, ay))
+    case("move a.move(b)", lambda W, a, b: W.call("move", a, b), (ax + bx, ay + by), same="a")
+    case("scale a.scale(2, 3)", lambda W, a, b: W.call("scale", a, 2, 3), (ax * 2, ay * 3), same="a", untouched=False)
+    # equality: by value, tolerant to 1e-9, symmetric, a bool
+    eqs = [((ax, ay), True), ((ax + Fr(1, 10**10), ay), True), ((ax, ay - Fr(1, 10**10)), True), ((ax + Fr(1, 10**8), ay), False),
+           ((ax, ay + Fr(1, 10**8)), False), ((bx, by), False), ((ay, ax), False)]
+    for (cx, cy), want in eqs:
+        W = World(ctx)
+        a, c = W.point(ax, ay), W.point(cx, cy)
+        try:
+            g1, g2 = a == c, c == a
+        except (Undecided,) as ex:
+            out.undecided(f"{q}.__eq__", str(ex), where=ctx.fn(f"{q}.__eq__").where())
+            continue
+        except (Raised, TypeError, ValueError, AttributeError, AssertionError) as ex:
+            out.bad(f"{q}.__eq__", f"== of two points raises {type(ex).__name__}", where=ctx.fn(f"{q}.__eq__").where())
+            continue
+        if g1 is want and g2 is want:
+            out.ok(f"{q}.__eq__", f"({ax}, {ay}) == ({cx}, {cy}) -> {want}, both ways", where=ctx.fn(f"{q}.__eq__").where())
+        else:
+            out.bad(f"{q}.__eq__", "== of two points is not the symmetric comparison of values within 1e-9",
+                    where=ctx.fn(f"{q}.__eq__").where(), detail=f"({ax}, {ay}) == ({cx}, {cy}): {g1!r} / reversed {g2!r}, required {want}")
+    return out
+
+
+RULES = [r13_1, r13_2, r13_3, r13_4]
